@@ -230,7 +230,10 @@ def native_case(case):
 def native_type(case):
     from pytezos.michelson.types import AddressType, KeyType, KeyHashType, SignatureType, ChainIdType
     T = dict(address=AddressType, key=KeyType, key_hash=KeyHashType, signature=SignatureType, chain_id=ChainIdType)[case['type']]
-    v = T.from_value(case['value'])
+    try:
+        v = T.from_value(case['value'])
+    except Exception as ex:   # noqa
+        return True, f'{case["type"]}.from_value({case["value"]}) raised {ex!r}'
     for mode in ('optimized', 'legacy_optimized'):
         try:
             back = T.from_micheline_value(v.to_micheline_value(mode))
@@ -345,12 +348,15 @@ def run(ck: Check) -> int:
     crosscheck(ck, F.forge_public_key, [(k,) for k in keys])
     crosscheck(ck, F.unforge_public_key, [(F.forge_public_key(k),) for k in keys] + [(b'\x07' + bytes(32),)])
     crosscheck(ck, F.unforge_signature, [(bytes(64),), (bytes(96),), (bytes(63),)])
+    from props.C10_T import run_typed
+    run_typed(ck)
     run_R(ck)
-    return ck.finish('other',
+    return ck.finish('proof',
                      'P: forge/unforge of addresses (22-byte and 21-byte key-hash forms), contracts with every entrypoint name, '
                      'public keys, signatures and chain ids on the real ASTs with ALL payload bytes symbolic and base58 through the '
-                     'C09 contracts; R (bounded): the domain types\' optimized Micheline round trip on real strings. '
-                     'Claimed "other" because the typed-value layer (types/domain.py) is only checked at run time.')
+                     'C09 contracts; the typed layer (types/domain.py: from_value, to_micheline_value, from_micheline_value for the seven domain '
+                     'types, three modes) on the real ASTs with the same symbolic payloads and entrypoint names of symbolic length 1..31; '
+                     'R (bounded, not counted): the same round trip on real base58 strings.')
 
 
 def run_R(ck):
@@ -390,8 +396,11 @@ def run_R(ck):
         cls = c.pop('cls')
         try:
             bad, info = native_type(c)
-        except AssertionError as ex:
-            # from_value refuses the string itself (e.g. KeyType refuses nothing, AddressType refuses txr1): not a round-trip issue
+        except Exception as ex:   # noqa
+            # from_value refuses a string that IS of the type (all kinds generated above are): the value cannot even be stored
+            ck.evaluate((c['type'], c['kind'], cls))
+            ck.violation(f'{c["type"]}::from_value_accepts_value_of_the_type', f'{c["type"]}.from_value({c["value"]}) raised {ex!r}', case=c,
+                         replay='props.C10:replay', wclass=f'{c["type"]}:{c["kind"]}:refused')
             continue
         ck.evaluate((c['type'], c['kind'], cls), sample=c if len(ck.samples) < 3 else None)
         if bad:
